@@ -157,17 +157,18 @@ theorem AnyList.deallocateBytes_node (cfg : Cfg) {l : AnyList} (hint : ∀ P, l.
     simp only [AnyList.nodeSize] at hn
     simp [AnyList.deallocateBytes, AnyList.deallocate, OrdList.deallocateBytes, hn]
 
-/-- **`deallocate_array(ptr, count, size)` of an array whose cells the caller still holds** -/
-theorem Coll.deallocateArray_inv (cfg : Cfg) {arr arrLen : Nat} {c : Coll} {live : List (Nat × Nat)}
+/-- the list-level part of `deallocate_array` of an array whose cells the caller still holds: the bucket's
+`deallocate(ptr, n)` succeeds and adds exactly the array's cells -/
+theorem CInv.arrayRelease_list (cfg : Cfg) {arr arrLen : Nat} {c : Coll} {live : List (Nat × Nat)}
     (h : CInv arr arrLen c live) {a count s : Nat} {l : AnyList} (hl : c.lists[c.listIndex s]? = some l)
     (hsub : ∀ e ∈ arrEntries l.nodeSize a s (cellsOf l.nodeSize (mul64 count s)), e ∈ live) :
-    (c.deallocateArray cfg a count s).out = .done ∧ (c.deallocateArray cfg a count s).ev = [] ∧
-      CInv arr arrLen (c.deallocateArray cfg a count s).st
-        (removeEntries live (arrEntries l.nodeSize a s (cellsOf l.nodeSize (mul64 count s)))) := by
+    ∃ l', l.deallocateBytes cfg a (mul64 count s) = .ok l' ∧
+      l'.cells.Perm (blockNodes a l.nodeSize (cellsOf l.nodeSize (mul64 count s)) ++ l.cells) ∧ AnyList.Same l l' ∧
+      l'.SInv c.arena.used [] := by
   obtain ⟨hint, hS, hpos⟩ := h.lists _ l hl
   have hns : c.nsOf s = l.nodeSize := by unfold Coll.nsOf; rw [hl]; rfl
   generalize hk : cellsOf l.nodeSize (mul64 count s) = k at hsub ⊢
-  generalize hE : arrEntries l.nodeSize a s k = E at hsub ⊢
+  generalize hE : arrEntries l.nodeSize a s k = E at hsub
   have hkpos : 0 < k := by rw [← hk]; exact cellsOf_pos _ _ hpos
   obtain ⟨k', rfl⟩ : ∃ k', k = k' + 1 := ⟨k - 1, by omega⟩
   -- every cell of the array is a live range of this bucket
@@ -221,23 +222,36 @@ theorem Coll.deallocateArray_inv (cfg : Cfg) {arr arrLen : Nat} {c : Coll} {live
     simp only at hin
     omega
   -- the list operation
-  have hop : ∃ l', l.deallocateBytes cfg a (mul64 count s) = .ok l' ∧
-      l'.cells.Perm (blockNodes a l.nodeSize (k' + 1) ++ l.cells) ∧ AnyList.Same l l' ∧ l'.SInv c.arena.used [] := by
-    by_cases hn : mul64 count s ≤ l.nodeSize
-    · have hk1 : k' + 1 = 1 := by rw [← hk]; simp [cellsOf, hn]
-      rw [AnyList.deallocateBytes_node cfg hint hn]
-      obtain ⟨l', q1, q2, q3, q4⟩ := AnyList.deallocate_spec cfg (live := [(a, s)]) (i := 0) (b := s)
-        (SInv_irrel [] [(a, s)] hint hS) rfl (by rw [hk1] at hap; exact hap)
-        (by rw [hk1, Nat.one_mul] at hout; exact hout) ha0
-      refine ⟨l', q1, ?_, q3, by simpa using q4⟩
-      rw [hk1]
-      simpa [blockNodes] using q2
-    · have hn' : l.nodeSize < mul64 count s := by omega
-      have hk2 : ceilNodes (mul64 count s) l.nodeSize = k' + 1 := by
-        rw [← hk]; simp [cellsOf, hn]
-      obtain ⟨l', q1, q2, q3, q4⟩ := AnyList.deallocateBytes_spec cfg (live := [(a, mul64 count s)]) (i := 0)
-        (SInv_irrel [] [(a, mul64 count s)] hint hS) rfl hpos hn' (by rw [hk2]; exact hap) (by rw [hk2]; exact hout) ha0
-      refine ⟨l', q1, by rw [hk2] at q2; exact q2, q3, by simpa using q4⟩
+  by_cases hn : mul64 count s ≤ l.nodeSize
+  · have hk1 : k' + 1 = 1 := by rw [← hk]; simp [cellsOf, hn]
+    rw [AnyList.deallocateBytes_node cfg hint hn]
+    obtain ⟨l', q1, q2, q3, q4⟩ := AnyList.deallocate_spec cfg (live := [(a, s)]) (i := 0) (b := s)
+      (SInv_irrel [] [(a, s)] hint hS) rfl (by rw [hk1] at hap; exact hap)
+      (by rw [hk1, Nat.one_mul] at hout; exact hout) ha0
+    refine ⟨l', q1, ?_, q3, by simpa using q4⟩
+    rw [hk1]
+    simpa [blockNodes] using q2
+  · have hn' : l.nodeSize < mul64 count s := by omega
+    have hk2 : ceilNodes (mul64 count s) l.nodeSize = k' + 1 := by
+      rw [← hk]; simp [cellsOf, hn]
+    obtain ⟨l', q1, q2, q3, q4⟩ := AnyList.deallocateBytes_spec cfg (live := [(a, mul64 count s)]) (i := 0)
+      (SInv_irrel [] [(a, mul64 count s)] hint hS) rfl hpos hn' (by rw [hk2]; exact hap) (by rw [hk2]; exact hout) ha0
+    refine ⟨l', q1, by rw [hk2] at q2; exact q2, q3, by simpa using q4⟩
+
+/-- **`deallocate_array(ptr, count, size)` of an array whose cells the caller still holds** -/
+theorem Coll.deallocateArray_inv (cfg : Cfg) {arr arrLen : Nat} {c : Coll} {live : List (Nat × Nat)}
+    (h : CInv arr arrLen c live) {a count s : Nat} {l : AnyList} (hl : c.lists[c.listIndex s]? = some l)
+    (hsub : ∀ e ∈ arrEntries l.nodeSize a s (cellsOf l.nodeSize (mul64 count s)), e ∈ live) :
+    (c.deallocateArray cfg a count s).out = .done ∧ (c.deallocateArray cfg a count s).ev = [] ∧
+      CInv arr arrLen (c.deallocateArray cfg a count s).st
+        (removeEntries live (arrEntries l.nodeSize a s (cellsOf l.nodeSize (mul64 count s)))) := by
+  obtain ⟨hint, hS, hpos⟩ := h.lists _ l hl
+  have hns : c.nsOf s = l.nodeSize := by unfold Coll.nsOf; rw [hl]; rfl
+  have hop := h.arrayRelease_list cfg hl hsub
+  generalize hk : cellsOf l.nodeSize (mul64 count s) = k at hsub hop ⊢
+  generalize hE : arrEntries l.nodeSize a s k = E at hsub ⊢
+  have hkpos : 0 < k := by rw [← hk]; exact cellsOf_pos _ _ hpos
+  obtain ⟨k', rfl⟩ : ∃ k', k = k' + 1 := ⟨k - 1, by omega⟩
   obtain ⟨l', hd', hperm, hsame, hS'⟩ := hop
   unfold Coll.deallocateArray
   simp only [hl, hd']
